@@ -213,7 +213,7 @@ func (c ControlHandler) closeWithProtocolError(reason error) error {
 		ws.StatusProtocolError, reason.Error(),
 	))
 	if c.State.ClientSide() {
-		ws.MaskFrameInPlace(f)
+		f = ws.MaskFrameInPlace(f)
 	}
 	return ws.WriteFrame(c.Dst, f)
 }
